@@ -2,15 +2,19 @@ package harness
 
 import (
 	"fmt"
+	"net"
 	"regexp"
 	"sort"
 	"strings"
+	"sync/atomic"
 	"time"
 
+	"github.com/mimecast/dtail/internal/clients"
 	"github.com/mimecast/dtail/internal/discovery"
 	"github.com/mimecast/dtail/internal/source"
 	"github.com/mimecast/dtail/verif/explore"
 	"github.com/mimecast/dtail/verif/vrt"
+	"golang.org/x/crypto/ssh"
 )
 
 // C18: server discovery yields each wanted server exactly once.
@@ -112,6 +116,91 @@ func c18ClientContacts(list []string, path string) (map[string]int, string) {
 	return got, errs
 }
 
+// dropListener accepts TCP connections, counts them and closes them at once
+// (a server that is unreachable at the SSH level).
+type dropListener struct {
+	l net.Listener
+	n int32
+}
+
+func newDropListener() *dropListener {
+	l, err := net.Listen("tcp", "127.0.0.1:0")
+	if err != nil {
+		panic(err)
+	}
+	d := &dropListener{l: l}
+	go func() {
+		for {
+			c, err := l.Accept()
+			if err != nil {
+				return
+			}
+			atomic.AddInt32(&d.n, 1)
+			c.Close()
+		}
+	}()
+	return d
+}
+
+func (d *dropListener) port() int     { return d.l.Addr().(*net.TCPAddr).Port }
+func (d *dropListener) contacts() int { return int(atomic.LoadInt32(&d.n)) }
+
+// c18Reconnect: a following client (dtail) re-connects after a connection loss;
+// the servers it contacts must still be exactly the listed entries.
+func c18Reconnect(c *Ctx) {
+	for _, nEntries := range []int{1, 2} {
+		var listed []*dropListener
+		var entries []string
+		for i := 0; i < nEntries; i++ {
+			d := newDropListener()
+			listed = append(listed, d)
+			entries = append(entries, fmt.Sprintf("127.0.0.1:%d", d.port()))
+		}
+		other := newDropListener() // listens on the client's DEFAULT port: not in the list
+		var startErr string
+		res := vrt.Run(vrt.Config{MaxSteps: 5000000, Horizon: 10 * time.Minute}, func() {
+			args := DefaultArgs()
+			args.NoColor = true
+			args.Quiet = true
+			args.LogLevel = "error"
+			args.What = "/nonexistent/x.log"
+			args.ServersStr = strings.Join(entries, ",")
+			args.SSHPort = other.port()
+			args.SSHAuthMethods = []ssh.AuthMethod{ssh.Password("x")}
+			env := StartEnv(source.Client, &args, nil)
+			cl, err := clients.NewTailClient(args)
+			if err != nil {
+				startErr = err.Error()
+				return
+			}
+			done := vrt.Make[int]("clientDone", 1)
+			stats := vrt.Make[string]("statsCh", 0)
+			vrt.Go("dtail", func() { done.Send("done", cl.Start(env.Ctx, stats)) })
+			vrt.Sleep("follow-for-a-while", 9*time.Second) // re-connects happen every 2 s
+			env.Cancel()
+			done.Recv("wait")
+		})
+		c.Count(fmt.Sprintf("reconnect|%d", nEntries))
+		var got []int
+		for _, d := range listed {
+			got = append(got, d.contacts())
+			d.l.Close()
+		}
+		o := other.contacts()
+		other.l.Close()
+		bad := startErr != "" || res.Fail != nil || o != 0
+		for _, n := range got {
+			if n < 2 {
+				bad = true
+			}
+		}
+		if bad {
+			c.Violation("reconnect-contacts-wrong-server", fmt.Sprintf("dtail --servers %s (default port %d) following for 9 s while every connection is dropped: contacts per listed entry %v (want >= 2 each: first contact and re-connects), contacts of the unlisted 127.0.0.1:<default port> %d (want 0) %s %v",
+				strings.Join(entries, ","), other.port(), got, o, startErr, res.Fail), entries)
+		}
+	}
+}
+
 func c18Lists(maxLen int) (out [][]string) {
 	alpha := []string{"a", "b", "c:2222", "a.dom"}
 	var rec func(cur []string)
@@ -136,7 +225,7 @@ func init() {
 		Level: "model_checking",
 		Rule: "all server lists of length 1..5 (quick) / 1..6 (thorough) over {a, b, c:2222, a.dom} (so all duplicate patterns), given as comma list, as server file (newline-terminated, without final newline, CRLF) and through a discovery " +
 			"module with the filters none, /a/, /^c/, /x/, /./; every random number the shuffle draws is an environment choice and ALL answer sequences are explored " +
-			"(complete tree, no bound); oracle: returned multiset == distinct entries matching the filter; plus, end to end, a real dcat over every list of <=3 entries (every entry an in-process server): each distinct server delivers the file exactly once; distinct = distinct (case, returned order) pairs",
+			"(complete tree, no bound); oracle: returned multiset == distinct entries matching the filter; plus, end to end, a real dcat over every list of <=3 entries (every entry an in-process server): each distinct server delivers the file exactly once; and a following client whose connections are all dropped re-connects only to the listed host:port entries (real TCP listeners, virtual time); distinct = distinct (case, returned order) pairs",
 		Assumptions: []string{"math/rand is replaced by an explorer-owned choice; regexp is trusted"},
 		Run: func(c *Ctx) {
 			n := 5
@@ -171,6 +260,9 @@ func init() {
 						c.Sample(cs)
 					}
 				}
+			}
+			if c.Shard == 0 {
+				c18Reconnect(c)
 			}
 			// end to end: the set of servers a real client actually contacts (host names without port;
 			// the serverless connector gives every entry its own in-process server named after the entry)
